@@ -39,3 +39,19 @@ Theorem C02_fail_fast_first :
   exists e rest, errs (units c issuers o) = e :: rest /\ es = [e].
 Proof. exact fail_fast_first. Qed.
 Print Assumptions C02_fail_fast_first.
+
+(* fail-fast and all-errors modes agree: both accept the same credential, or both refuse and the
+   fail-fast error is the FIRST of the all-errors list; a signature failure is reported alone whatever
+   the mode - for every token, issuer and option set *)
+Theorem C02_modes_agree : forall t i o,
+  match validate t i o true, validate t i o false with
+  | inl a, inl b => a = b
+  | inr ef, inr ea => exists e rest, ef = [e] /\ ea = e :: rest
+  | _, _ => False
+  end.
+Proof. exact modes_agree. Qed.
+Print Assumptions C02_modes_agree.
+Theorem C02_signature_error_alone : forall t i o ff e,
+  verify_signature t [i] o = inr e -> validate t i o ff = inr [e].
+Proof. exact signature_error_alone. Qed.
+Print Assumptions C02_signature_error_alone.
